@@ -187,7 +187,7 @@ def check(pid, tier, seed):
             kernel_results = list(mod.kernels(tier, seed))
 
         # --- symbolic exploration
-        budget = os.environ.get('VERIF_WALL_BUDGET') or ('1800' if tier == 'thorough' else '')
+        budget = os.environ.get('VERIF_WALL_BUDGET') or ('1200' if tier == 'thorough' else '')
         DEADLINE[0] = (time.time() + float(budget)) if budget else None
         order = list(parts)
         rng.shuffle(order)
@@ -199,7 +199,7 @@ def check(pid, tier, seed):
             # self-test of the modelling layer runs alongside (exit 3 on mismatch)
             st_fut = ex.submit(subprocess.run, [PY, '-m', 'symrt.selftest', str(seed)], cwd=VERIF,
                                env=_env(), capture_output=True, text=True, timeout=900)
-            futs = {ex.submit(run_worker, p, workdir): p for p in order}
+            futs = {ex.submit(run_worker, p, workdir): p for p in order if not p.concrete_only}
             for fut in cf.as_completed(futs):
                 p = futs[fut]
                 results[p.name] = fut.result()
@@ -235,6 +235,24 @@ def check(pid, tier, seed):
         inconclusive = []
         n_cex = 0
         for p in parts:
+            if p.concrete_only:
+                results[p.name] = {'status': 'CONCRETE', 'paths': 0, 'reach': 0, 'rejected': 0,
+                                   'solver_queries': 0, 'solver_time_s': 0.0, 'functions': [], 'elapsed': None}
+                if p.name in rep_failed:
+                    n_cex += 1
+                    rp = os.path.join(replay_dir, '%s-%d.json' % (pid, n_cex))
+                    with open(rp, 'w') as f:
+                        json.dump({'property': pid, 'partition': p.name, 'bound': p.bound, 'args': p.rep,
+                                   'tz_replay': p.tz_replay,
+                                   'observed_concrete': rep_failed[p.name].get('observed'),
+                                   'source': p.source()}, f, indent=1)
+                    lines.append('VIOLATION property=%s replay=%s' % (pid, rp))
+                    lines.append('  partition=%s concrete obligation fails: %s'
+                                 % (p.name, rep_failed[p.name].get('observed')))
+                    violations += 1
+                else:
+                    exhausted += 1
+                continue
             if p.expect == 'refuted':
                 pass
             r = results[p.name]
